@@ -441,6 +441,33 @@ func init() {
 					return true
 				})
 				r.Check(len(keys) == 1, "imports/one-key-variable", qi.Decl.Pos(), "every access to gen.imports in qualifyImport uses the same key variable (%d variables)", len(keys))
+				// … holding the same value at every access: it is not assigned between the first and the last of them
+				for v := range keys {
+					if v == nil {
+						continue
+					}
+					first, last := 0, 0
+					qi.inspect(qi.Decl.Body, func(nd ast.Node) bool {
+						if ix, ok := nd.(*ast.IndexExpr); ok {
+							if f := qi.selField(ix.X); f != nil && f.Name() == "imports" && qi.varOf(ix.Index) == v {
+								if o := startOf(ix); first == 0 || o < first {
+									first = o
+								}
+								if o := startOf(ix); o > last {
+									last = o
+								}
+							}
+						}
+						return true
+					})
+					redefined := 0
+					for _, d := range qi.defs[v] {
+						if d.node != nil && qi.within(d.node, qi.Decl) && startOf(d.node) > first && startOf(d.node) < last {
+							redefined++
+						}
+					}
+					r.Check(redefined == 0, "imports/key-same-value", qi.Decl.Pos(), "the key variable %s is not assigned between the lookup and the store (%d assignments)", v.Name(), redefined)
+				}
 				for v := range keys {
 					if v == nil {
 						r.Bad("imports/key-is-variable", qi.Decl.Pos(), "import table key is not a variable")
